@@ -87,6 +87,26 @@ CLAIMED = {
              "configurations (operands as objects, 6-arrays, 6x1 arrays, scalars); float frames sampled. Bounded "
              "exhaustive + random.",
         note="TLC exact arithmetic (QSE3); 1e-8 relative comparison as in the property"),
+    "C05": dict(
+        level="model_checking", design="3/C05",
+        technique="TLA+ spec Arm.tla (base, tool anchoring, knowledge of the stored joint vector; which obligations are owed "
+                  "after every call) model-checked by TLC; every TLC history (exhaustive to depth 2-3, simulated to depth 10) "
+                  "replayed on every arm of the zoo with the obligations evaluated after every step by RefEval "
+                  "(base * PoE(home screws, clamp theta) * tool via scipy.linalg.expm)",
+        text="All operation histories over {FK, IK, move, move(stationary), setArbitraryHome, restoreOriginalEE, randomPos, "
+             "queries} to a depth, on the 6R test arm (identity and random base), random chains and URDF arms: FK value, "
+             "clamping, reported tool pose = pose of the stored joint state, base pose, joint frames, default-argument "
+             "queries. Bounded exhaustive over histories, sampled over joint vectors/bases/tools.",
+        note="TLC for the history space and bookkeeping; RefEval on pristine copies of the constructor data; 1e-7 pose tolerance"),
+    "C06": dict(
+        level="model_checking", design="3/C06",
+        technique="same TLA+ spec Arm.tla and replay engine as C05; Jacobian/statics obligations (J1 dFK/dtheta by Richardson "
+                  "differences of the code's FK, J2 body=Ad(inv T)*space, J3 tool-aligned and numerical variants, S1 power "
+                  "balance, S2 round trip) evaluated in every visited state with a known joint vector",
+        text="The obligations are attached by the spec to every state reachable through move / tool change / restore "
+             "histories, so a Jacobian that is self-consistent but belongs to a stale kinematic model is seen. Derivative "
+             "by finite differences (threshold 1e-6 relative).",
+        note="TLC for the history space; finite differences of the implementation's FK; RefEval adjoints"),
 }
 
 NOT_YET = "check not built yet in this round (planned: see DESIGN.md section 3)"
